@@ -115,6 +115,15 @@ class OpHistory(Harness):
                                 uses_ttl = "T" in ops
                                 for ttl in (("none", "sym") if uses_ttl else ("none",)):
                                     out.append({"ops": ops, "ttl": ttl, "start_running": False})
+        # family C: long single-side skeletons around the expiry bookkeeping (an expiry slot emptied by a cancel
+        # or a fill, another expiry in between, the slot reused by a later order, the clock passing it)
+        if self.with_stopped_prefix:
+            for side in ("BL", "SL"):
+                other = "SL" if side == "BL" else "BL"
+                for ci in (0, 1):
+                    out.append({"ops": [side, side, ["C", ci], "T", "T", side, "T", "T"], "ttl": "sym"})
+                    out.append({"ops": [side, side, "T", ["C", ci], "T", side, "T", "T", "T"], "ttl": "sym"})
+                out.append({"ops": [side, side, other, "T", "T", side, "T", "T", other], "ttl": "sym"})
         for first in ("SL", "SM"):
             for n in range(1, min(N, 2) + 1):
                 for ops in self._gen(n, 1):
